@@ -1,5 +1,5 @@
 use crate::common::*;
-use nextest_filtering::{CompiledExpr, EvalContext};
+use nextest_filtering::{CompiledExpr, EvalContext, Filterset, FiltersetKind, ParseContext};
 use nextest_runner::{
     list::verif_test_list,
     partition::PartitionerBuilder,
@@ -67,11 +67,21 @@ pub fn run(case: &Value) -> Value {
                 "all" => RunIgnored::All,
                 _ => RunIgnored::Default,
             };
-            let mut patterns = TestFilterPatterns::default();
+            // positional substring patterns (`pats`), --skip patterns (`skips`) and -E filtersets
+            // (`exprs`, each a substring s given as `test(~s)`) may all be present at once
+            let mut patterns = TestFilterPatterns::new(strs(&case["pats"]));
             for s in strs(&case["skips"]) {
                 patterns.add_skip_pattern(s);
             }
-            let filter = TestFilterBuilder::new(ri, builder(case), patterns, Vec::new())
+            let pcx = ParseContext::new(graph());
+            let mut sets = Vec::new();
+            for e in strs(&case["exprs"]) {
+                match Filterset::parse(format!("test(~{e})"), &pcx, FiltersetKind::Test) {
+                    Ok(f) => sets.push(f),
+                    Err(_) => return json!({ "error": format!("filterset does not parse: {e}") }),
+                }
+            }
+            let filter = TestFilterBuilder::new(ri, builder(case), patterns, sets)
                 .expect("filter builder");
             let all = CompiledExpr::ALL;
             let ecx = EvalContext {
